@@ -83,3 +83,14 @@ Theorem C08_subslot : forall p, wf p -> forall t f e,
   sleaf_dates (sschedule p) t = Some (f, e) -> s_mile (stask_of p t) = false -> NoIdle p (sschedule p) t.
 Proof. exact subslot_no_idle. Qed.
 Print Assumptions C08_subslot.
+
+(* ---- second granularity, teams with limits (Model/SubSlotTeam.v), no member allocated twice: TNoIdle - there is a
+   bound b as above such that for every slot from the slot of b up to the last slot the team booked, in which no member
+   has an entry of the task, some member r of the team is in the FINAL ledger off, or full (at most 1e-6 s left), or
+   closed by a limit whose count for that period, together with the tentative bookings of the members checked before r
+   (TaskScenario._countTentativeBooking), has reached its value *)
+Require Import SP.Model.SubSlotTeam SP.Proofs.SubSlotTeamProofs SP.Proofs.SubSlotTeamIdle.
+Theorem C08_subslot_teams : forall p, twf p -> (forall t, NoDup (tt_team (ttask_of p t))) -> forall t f e,
+  sleaf_dates (tschedule p) t = Some (f, e) -> tt_mile (ttask_of p t) = false -> TNoIdle p (tschedule p) t.
+Proof. exact team_no_idle. Qed.
+Print Assumptions C08_subslot_teams.
